@@ -55,3 +55,15 @@ Print Assumptions C10_pow_neg_bc_le.
 (* non-vacuity: an 8-bit input really is cut down *)
 Example C10_witness : mbc (normalize 0 201 0 8 3 RF) = 2.
 Proof. reflexivity. Qed.
+
+(* complex arithmetic: both components are finite with at most prec bits *)
+From MP Require Import Algo.Libmpc Proofs.Cplx Proofs.CplxDiv Proofs.CplxBc.
+Theorem C10_mpc_add : forall z w prec r, cfin z -> cfin w -> 0 < prec -> cfin (mpc_add z w prec r) /\ cbc_le (mpc_add z w prec r) prec.
+Proof. exact mpc_add_closed. Qed.
+Theorem C10_mpc_sub : forall z w prec r, cfin z -> cfin w -> 0 < prec -> cfin (mpc_sub z w prec r) /\ cbc_le (mpc_sub z w prec r) prec.
+Proof. exact mpc_sub_closed. Qed.
+Theorem C10_mpc_mul : forall z w prec r, cfin z -> cfin w -> 0 < prec -> cfin (mpc_mul z w prec r) /\ cbc_le (mpc_mul z w prec r) prec.
+Proof. exact mpc_mul_closed. Qed.
+Theorem C10_mpc_div : forall z w prec r, cfin z -> cfin w -> (0 < cabs2 w)%R -> 0 < prec ->
+  exists q, mpc_div z w prec r = Ok q /\ cfin q /\ cbc_le q prec.
+Proof. exact mpc_div_closed. Qed.
